@@ -25,6 +25,7 @@ RULE = (
     "or a sleeping destination; distinct = distinct case JSON."
     ' Round 5: histories contain `session`, `save`, `reload` and `fault n` events; two parked commands + one event of every kind + two wakes enumerated.'
     ' Round 6: destinations registered and presented with arbitrary version texts.'
+    ' Round 7: incoming sets with the ack flag (echoes) between park and wake.'
 )
 ASSUMPTIONS = [
     "for protocols 1.4/1.5, which have no wake message, 'next wake' is observed after the gateway reports 2.2.0 and the node sends a pre-sleep notification",
@@ -77,11 +78,14 @@ def enumerate_cases(tier: str):
     # two commands held for a sleeping node, one event of every kind, then the wake (twice): both are still owed
     for version in ("2.0", "2.1", "2.2"):
         wake = ["rx", f"11;255;3;0;{32 if version == '2.2' else 22};7\n"]
-        for event in (["session"], ["save"], ["reload"], ["fault", 1], ["fault", 2], ["rx", "0;255;3;0;14;Gateway startup complete.\n"], ["rx", "11;255;0;0;17;2.0\n"],
+        for event in (["session"], ["save"], ["reload"], ["fault", 1], ["fault", 2], ["bystander", "x"], ["bystander_wake"], ["rx", "0;255;3;0;14;Gateway startup complete.\n"], ["rx", "11;255;0;0;17;2.0\n"],
                       ["rx", "0;255;3;0;2;2.2.0\n"], ["rx", "11;1;1;0;3;1\n"], ["rx", "2;255;3;0;22;7\n"], ["rx", "junk\n"]):
             for cmds in ([[11, 1, 1, 0, 3, "0"], [11, 2, 1, 0, 3, "1"]], [[11, 1, 1, 0, 3, "0"], [11, 1, 1, 1, 23, "1"], [11, 2, 2, 0, 3, ""]]):
                 ops = [["send", m, None] for m in cmds] + [event, wake, wake]
                 yield {"kind": "hist", "version": version, "ops": ops}
+                if event[0] == "bystander":
+                    yield {"kind": "hist", "version": version, "ops": [event] + [["send", m, None] for m in cmds] + [["bystander_wake"], wake, wake]}
+                    yield {"kind": "hist", "version": version, "ops": [["send", m, None] for m in cmds] + [event, ["bystander_wake"], wake, wake]}
                 yield {"kind": "hist", "version": version, "ops": [["session"]] + ops}
     versions = ("1.4", "1.5", "2.0", "2.1", "2.2") if tier == "thorough" else ("1.5", "2.2")
     for version in versions:
@@ -168,7 +172,7 @@ def _hist_strategy():
         st.sampled_from((["rx", "0;255;3;0;9;log\n"], ["rx", "junk\n"], ["rx", "0;255;3;0;2;2.2.0\n"])),
     )
     # what the application and the link do meanwhile: reconnect on the same gateway object, registry saved / reloaded, the next writes fail
-    events = st.sampled_from((["session"], ["session"], ["save"], ["reload"], ["fault", 1], ["fault", 1], ["fault", 2]))
+    events = st.sampled_from((["session"], ["session"], ["save"], ["reload"], ["fault", 1], ["fault", 1], ["fault", 2], ["bystander", "a"], ["bystander", "b"], ["bystander_wake"]))
     return st.fixed_dictionaries(
         {
             "kind": st.just("hist"),
@@ -225,6 +229,25 @@ def _run_hist(case: dict) -> Outcome:
                     persistence = Persistence(gateway.nodes, os.path.join(tmpdir, "registry.json"))
                 await (persistence.save() if op[0] == "save" else persistence.load())
                 info["events"] = info.get("events", 0) + 1
+                continue
+            if op[0] == "bystander":
+                # another gateway object in the same process (a second network) has the same node id asleep and holds its own command
+                other, other_t = env.make_gateway(case["version"])
+                env.install_registry(other.nodes, {"11": {"sleeping": True, "children": {"1": {"child_type": 3}, "2": {"child_type": 3}}}, "2": {"sleeping": True, "children": {"1": {"child_type": 3}}}})
+                status, value = await env.send(other, env.mk_message([11, 1, 1, 0, 3, f"other-{op[1]}"]))
+                held = status == "ok" and not other_t.writes
+                info.setdefault("others", []).append((other, other_t, f"11;1;1;0;3;other-{op[1]}\n", held))
+                info["events"] = info.get("events", 0) + 1
+                continue
+            if op[0] == "bystander_wake":
+                for other, other_t, own_line, held in info.get("others", []):
+                    before_n = len(other_t.writes)
+                    rules = other.protocol.VERSION
+                    await env.rx(other, f"11;255;3;0;{32 if rules == '2.2' else 22};7\n")
+                    wrote = [w for _s, w in other_t.writes[before_n:]]
+                    foreign = [w for w in wrote if w != own_line and w.split(";")[2] == "1"]
+                    if foreign:
+                        return fail("hist:command-written-to-another-gateway", f"{where}: the other gateway's transport received {foreign!r}, which were sent through this one")
                 continue
             if op[0] == "fault":
                 start = len(transport.attempts)
